@@ -139,6 +139,16 @@ def _new_result(desc):
                       violations=[], notes=[], canary=None, assumptions=0, rlimit_spent=0)
 
 
+SOLVER_TIMEOUT_MS = int(os.environ.get('KV_SOLVER_TIMEOUT_MS', '120000'))
+
+
+def mk_solver(rlimit):
+    s = z3.Solver()
+    s.set('rlimit', rlimit)
+    s.set('timeout', SOLVER_TIMEOUT_MS)
+    return s
+
+
 def _rl(s):
     try:
         st = s.statistics()
@@ -269,7 +279,7 @@ def _decide(mod, desc, opts, res, rlimit, V, ctx, claims, exc):
     if exc is not None:
         values = {}
         if base:
-            s = z3.Solver(); s.set('rlimit', rlimit); s.add(*base)
+            s = mk_solver(rlimit); s.add(*base)
             if _check(s, res) == z3.sat:
                 values, _ = model_values(s.model(), V.names)
         cclaims, cexc, _ = _run_concrete(mod, desc, values)
@@ -289,6 +299,16 @@ def _decide(mod, desc, opts, res, rlimit, V, ctx, claims, exc):
             res['notes'].append(''.join(traceback.format_exception(type(exc), exc, exc.__traceback__))[-1500:])
         return
 
+    # -- sharing lemmas of the proxy (denominators / radicands conjectured equal): must be identities
+    for (t1, t0) in getattr(ctx, 'lemmas', []):
+        s = mk_solver(rlimit)
+        s.add(t1 != t0)
+        r = _check(s, res)
+        if r != z3.unsat:
+            res['status'] = 'error' if res['status'] == 'ok' else res['status']
+            res['notes'].append(f'proxy sharing lemma not discharged ({r}): two denominators/radicands agree at the fingerprint point but are not proved identical')
+            return
+
     eqs, fails, unsats = [], [], []
     for c in claims:
         if isinstance(c, Eq):
@@ -304,7 +324,7 @@ def _decide(mod, desc, opts, res, rlimit, V, ctx, claims, exc):
     if fails:
         values = {}
         if base:
-            s = z3.Solver(); s.set('rlimit', rlimit); s.add(*base)
+            s = mk_solver(rlimit); s.add(*base)
             if _check(s, res) == z3.sat:
                 values, _ = model_values(s.model(), V.names)
         cclaims, cexc, _ = _run_concrete(mod, desc, values)
@@ -319,7 +339,7 @@ def _decide(mod, desc, opts, res, rlimit, V, ctx, claims, exc):
 
     # -- vacuity guard: side conditions alone must be satisfiable
     if ctx.assumptions and (eqs or unsats):
-        s = z3.Solver(); s.set('rlimit', rlimit); s.add(*base)
+        s = mk_solver(rlimit); s.add(*base)
         r = _check(s, res)
         if r == z3.unsat:
             res['status'] = 'error' if res['status'] == 'ok' else res['status']
@@ -341,7 +361,7 @@ def _decide(mod, desc, opts, res, rlimit, V, ctx, claims, exc):
         live.append(c)
     res['n_eq_nontrivial'] += len(live)
     if lits:
-        s = z3.Solver(); s.set('rlimit', rlimit)
+        s = mk_solver(rlimit)
         s.add(*base)
         s.add(z3.Or(*lits))
         r = _check(s, res)
@@ -349,7 +369,7 @@ def _decide(mod, desc, opts, res, rlimit, V, ctx, claims, exc):
             # retry claim by claim (smaller queries are often decided)
             r = z3.unsat
             for c, l in zip(live, lits):
-                s1 = z3.Solver(); s1.set('rlimit', rlimit); s1.add(*base); s1.add(l)
+                s1 = mk_solver(rlimit); s1.add(*base); s1.add(l)
                 r1 = _check(s1, res)
                 if r1 == z3.sat:
                     r, s = r1, s1
@@ -364,7 +384,7 @@ def _decide(mod, desc, opts, res, rlimit, V, ctx, claims, exc):
         # canary: a deliberately wrong spec must be refuted
         if opts.get('canary') and r == z3.unsat:
             c = live[0]
-            s2 = z3.Solver(); s2.set('rlimit', rlimit); s2.add(*base)
+            s2 = mk_solver(rlimit); s2.add(*base)
             s2.add(lift(c.lhs) != lift(c.rhs) + 1)
             rc = _check(s2, res)
             res['canary'] = str(rc)
@@ -374,7 +394,7 @@ def _decide(mod, desc, opts, res, rlimit, V, ctx, claims, exc):
 
     # -- Unsat obligations (exists-queries)
     for u in unsats:
-        s = z3.Solver(); s.set('rlimit', rlimit)
+        s = mk_solver(rlimit)
         if not u.free:
             s.add(*base)
         s.add(u.formula)
